@@ -5,6 +5,13 @@ HERE = os.path.dirname(os.path.abspath(__file__))
 ALL = ["C%02d" % i for i in range(1, 21)]
 
 CHECKS = {
+ "C05": dict(
+  engine="runner",
+  technique="differential runtime monitoring with a language-runtime oracle: generated scope/binding programs run under CPython and node (unique constants reveal which declaration each executed use read; symtable cross-checks) and through real lang+P1 runs; the symbol_id in semantic_p1/s2space_p1 is compared per occurrence with the declaration rows of the scope/file the runtime selected; metamorphic alpha-renaming relation on the P1 tables in 7 languages",
+  category="exploration",
+  text="G-bind programs (nested functions to depth 3, classes, shadowing at every level, parameters shadowing globals, global/nonlocal, declarations inside if/else/for/while/try/except blocks; JavaScript let/const/var in nested, loop, try and catch blocks, closures, hoisted functions, keyword-less writes; multi-file Python projects with plain, from, alias, wildcard, package __init__, relative, re-export and function-local imports). Every declaration carries a unique constant and every read is printed, so the runtime reveals per executed occurrence which declaration was bound; a read raising NameError/ReferenceError must be unresolved in lian. Second clause: renaming one declaration with exactly the occurrences bound to it must leave the P1 tables unchanged up to the name (twins validated by the runtime / javac / gcc / node); the only oracle for Java, Go, C, PHP, TypeScript templates. Quick: 100 Python + 50 JavaScript programs + 50 projects + 9 templates (>= 5600 occurrences); thorough 2600 + 1400 + 800.",
+  note="Trusted: CPython/node outputs, symtable (must agree with the runtime — a disagreement is a harness fault), javac/gcc/node for twin validation. Comparison is at 'which scope's declaration' level (lian hoists one declaration per function). Occurrences explained by a listed open mechanism are removed one by one; the rest of each program is still judged. Multi-file JavaScript is not exercised (the frontend resolves no imports); Go/PHP twins are not toolchain-confirmed; catch parameters are not judged.",
+  design="DESIGN.md §C05"),
  "C14": dict(
   engine="metamorphic",
   technique="relational run-pair monitor without oracle: complete `lian run` executions of one project with identical options in separate processes (one zygote per PYTHONHASHSEED forking one child per analysis); each child snapshots its artefact tree (SHA-256 of bytes + SHA-256 of decoded tables/JSON with location prefixes substituted); pairs are compared along exactly one dimension; true CLI runs cross-check the fork runner",
